@@ -417,9 +417,24 @@ class Program:
     def concrete_subclasses(self, base_qn: str) -> list[ClassInfo]:
         return [c for c in self.subclasses(base_qn) if not self.is_abstract_class(c)]
 
+    def is_protocol(self, c: ClassInfo) -> bool:
+        return any(b.split('.')[-1] == 'Protocol' for b in c.bases)
+
     def implementations(self, base_qn: str, method: str) -> list[FuncInfo]:
-        """Distinct non-abstract bodies that can run for base.method() on any package subclass."""
+        """Distinct non-abstract bodies that can run for base.method() on any package subclass.  For a typing.Protocol
+        the candidates are structural: every package class that defines all of the protocol's methods."""
         out: dict[str, FuncInfo] = {}
+        base = self.classes.get(base_qn)
+        if base is not None and self.is_protocol(base):
+            need = {m for m in base.methods if not m.startswith('__')}
+            for c in self.classes.values():
+                if c is base or self.is_protocol(c):
+                    continue
+                if all(self.find_method(c, m) is not None for m in need):
+                    f = self.find_method(c, method)
+                    if f is not None and not f.is_abstract:
+                        out[f.qualname] = f
+            return [out[k] for k in sorted(out)]
         for c in self.subclasses(base_qn):
             f = self.find_method(c, method)
             if f is not None and not f.is_abstract:
